@@ -18,6 +18,16 @@ CHECKS = {
     technique='runtime monitoring: real parser vs independent three-valued line classifier over exhaustive escape/token spaces and seeded grammar/mutation texts',
     text='ManifestFile.load is run on every \\xHH and \\uHHHH escape, a stride (quick) or all (thorough) \\UHHHHHHHH values, all short token sequences, and seeded grammar and byte-mutation texts; each outcome is compared with a classifier written from the statement (must-accept with decoded entries / must-reject / unconstrained) and any foreign exception type is a violation.',
     note='Trusted: vf/model/classify.py. Zones U5/U6 (exotic integer syntax, surrogate escapes, lenient timestamps, exotic whitespace) are unconstrained: only totality is checked there.'),
+ 'C17': dict(
+    category='exploration', design='3 C17',
+    technique='runtime monitoring: real hash_file/hash_path/get_file_metadata/`gemato hash` under every length class, size hint and short-read schedule (raw stream + real pipe bursts) vs one-shot digests cross-checked with coreutils/openssl',
+    text='Every content length 0..300 and around 64 KiB / 128 KiB / 1 MiB, random lengths to 5 MiB, every size hint class and seeded short-read schedules are run through the real hashing entry points; digests and sizes are compared with independent one-shot digests (themselves validated against md5sum/sha*sum/b2sum/openssl), and unsupported names must raise UnsupportedHash.',
+    note='Trusted: hashlib one-shot digests (KAT-validated per run against coreutils/openssl), the GLEP-74 name table in vf/model/mtext.py. WHIRLPOOL is unavailable in this Python, so only its rejection is observed.'),
+ 'C04': dict(
+    category='exploration', design='3 C04',
+    technique='runtime monitoring: exhaustive line-class sequences through the real loader with a recording mock OpenPGP env vs independent cleartext-framing recogniser (FSM state x class pairs observed via sys.monitoring), plus differential against real gpg --decrypt on mutated gpg-signed Manifests',
+    text='(a) every sequence of up to 5 (quick) / 7 (thorough) lines over ten line classes, with and without final newline, verification on (mock) and off, is loaded by the real ManifestFile.load; entries, exception class and the exact text handed to verification are compared with an independent recogniser of RFC 4880 section 7 framing. (b) seeded textual mutants of Manifests genuinely signed by gpg: whenever the verified load succeeds, entries must equal what gpg --decrypt authenticated.',
+    note='Trusted: vf/model/cleartext.py, vf/model/mtext.py, GnuPG 2.2 as the authenticating implementation. Armor-like lines inside the armor-header section and an END line without final newline are unconstrained (U13).'),
 }
 
 def main():
